@@ -22,12 +22,15 @@ def run(rep):
     rep.guard(l7, rep, w)
     rep.guard(l8, rep, w)
     rep.guard(l9, rep, w)
+    rep.guard(l12, rep, w)
     import c04
     rep.guard(c04.b5, rep, w)     # the frame limit is tested before the frame is pushed: the overflow report resolves the caller's ip in the caller's chunk
     import c15
     rep.guard(c15.n1, rep, w)     # a flag left over from an earlier failed run turns a later, unrelated try statement into a phantom error report
     import c04_narrow
     rep.guard(c04_narrow.b4n, rep, w)   # line information kept in sub-word counters (run lengths) wraps on long lines: later errors are reported with the wrong line
+    import c05
+    rep.guard(c05.e12, rep, w)    # the line of an instruction is a function of (chunk, offset): the chunk keeps no cursor or memo that an earlier report moves
 
 
 def first_getter_from(f, b, limit=6):
@@ -755,3 +758,34 @@ def l9(rep, w):
                         'it was thrown as' % ([' '.join(str(x) for x in q[:1]) + ' ' + ' '.join(t for t in q[1:] if not t.startswith('@') and t != '*') for q in bad][:2] or inner), f.loc(s_.get('sp')))
     if n < 1:
         raise Broken('C17', 'anchor', 'new_error_from_value: no read of a class name found')
+
+
+def l12(rep, w, prop='C17'):
+    """a function's code carries its own line table: the chunk a compiled function ends up with is the one that was compiled for it. A chunk
+    registry that answers with an *equal-looking* earlier chunk (same bytes, same constants) gives the function the other one's line numbers:
+    every chunk handed out by the registry is the freshly allocated copy of the argument."""
+    r = rep.rule('L12', 'Vm::add_chunk returns the allocation of the chunk it was given (chunks are never shared by comparison)', floor=1)
+    f = w.require_fn('yarel::vm::Vm::add_chunk', prop)
+    org = origins(f)
+    roots = org.get(0, ())
+    bad = []
+    for q in roots:
+        if q[0][0] == 'call':
+            nm = strip_generics(q[0][2])
+            t = f.blocks[q[0][1]]['t']
+            from_arg = False
+            for a in t.get('args', []):
+                pl = op_place(a)
+                if pl is not None and (pl['l'] == 2 or any(q2[0] == ('arg', 2) for q2 in org.get(pl['l'], ()))):
+                    from_arg = True
+            if ('memory::Root' in nm or 'memory::Gc' in nm or 'memory::UniqueRoot' in nm) and nm.rsplit('::', 1)[-1] in ('new', 'from', 'into'):
+                if from_arg:
+                    continue
+            bad.append(nm.rsplit('::', 1)[-1])
+        elif q[0] == ('arg', 2):
+            continue
+        else:
+            bad.append(str(q[0]))
+    r.check(bool(roots) and not bad, 'add_chunk: the result is the new allocation of its argument',
+            'add_chunk can answer with a chunk obtained from %s instead of the allocation of the chunk it was given: a function shares the line table (and identity) of another function\'s code'
+            % sorted(set(bad)), f.loc())
